@@ -31,9 +31,10 @@ def run_seed_for(master, prop, i, faults):
 KNOWN = []      # set by check.py from known_findings.json (status == known)
 
 
-def world_cfg(prop):
+def world_cfg(prop, shadow=False):
     return {"prop": prop, "inv": INV[prop], "i3_other": True,
             "i3_only_copies": prop == "C14",
+            "shadow": bool(shadow) and prop in ("C03", "C04", "C12", "C15"),
             "known": [k for k in KNOWN if k[0] == prop]}
 
 
@@ -68,7 +69,7 @@ def simulate(prop, seed, tier="quick", faults=False, max_ops=None):
     t0 = time.perf_counter()
     rng = random.Random(seed)
     sw = swarm_config(rng, prop, tier, faults)
-    world = World(world_cfg(prop))
+    world = World(world_cfg(prop, sw.get("shadow")))
     if _CANARY is None:
         check_canaries(world)
     gen = Gen(world, rng, prop, sw)
@@ -89,10 +90,11 @@ def simulate(prop, seed, tier="quick", faults=False, max_ops=None):
     return result_of(world, ops, viol, seed, sw, time.perf_counter() - t0)
 
 
-def replay(prop, ops, canaries=False):
-    """Execute a recorded op list; never consults a PRNG."""
+def replay(prop, ops, canaries=False, shadow=True):
+    """Execute a recorded op list; never consults a PRNG.  `shadow` must be what the
+    original run used (the extra oracle may fire earlier, with another class)."""
     t0 = time.perf_counter()
-    world = World(world_cfg(prop))
+    world = World(world_cfg(prop, shadow))
     if canaries and _CANARY is None:
         check_canaries(world)
     viol = None
